@@ -155,6 +155,12 @@ func drawOp(t *rapid.T, mode string) Op {
 	case opSetActive:
 		o.C = small.Draw(t, "col")
 		o.V = small.Draw(t, "version")
+		// in a third of the cases two switches inside one explicit transaction (see opSetActive)
+		if rapid.IntRange(0, 2).Draw(t, "twoSwitches") == 0 {
+			o.B = true
+			o.X = small.Draw(t, "version2")
+			o.Tx = rapid.SampledFrom([]int{1, 1, 1, 2}).Draw(t, "tx2")
+		}
 	case opCreateIndex:
 		o.C = small.Draw(t, "col")
 		o.F = small.Draw(t, "field")
